@@ -557,6 +557,10 @@ class MappedDFTKernel(KernelEvalBase, XCEvalSerializable):
         df = np.zeros_like(X1)
         for feval in self.fevals:
             feval(X1, f, df)
+        if self.mode == "POL" and X0T.shape[0] == 1:
+            # Both (identical) spin channels depend on the single input
+            # channel, so d/dX0T = d/dX1_a + d/dX1_b = 2 * d/dX1_a.
+            df = 2 * df[:1]
         if self.mode == "SEP":
             f = f.reshape(X0T.shape[0], -1)
         dfdX0T = self.apply_descriptor_grad(X0T, df, force_polarize=True)
